@@ -256,6 +256,15 @@ struct Runner {
     bool split = false;
     for (int j = 0; j < m; ++j) { int nz = 0; for (int i = 0; i < n; ++i) nz += x[i][j] != 0; if (nz > 1) split = true; }
     if (split) out.count("some_source_split");
+    {
+      int fullSinks = 0;
+      for (int i = 0; i < n; ++i) { ll rs = 0; for (int j = 0; j < m; ++j) rs += x[i][j]; if (rs == caps[i]) ++fullSinks; }
+      if (n >= 3 && fullSinks >= 2) out.count("sinks_ge3_and_full_sinks_ge2");
+      if (n >= 3 && fullSinks >= 2 && binding) out.count("sinks_ge3_full_ge2_negative_moving_cost");
+      bool bigSplit = false;  // a source split over >= 2 sinks whose largest share is >= 2^31
+      for (int j = 0; j < m; ++j) { int nz = 0; ll mx = 0; for (int i = 0; i < n; ++i) { nz += x[i][j] != 0; mx = std::max(mx, x[i][j]); } if (nz > 1 && mx >= (1LL << 31)) bigSplit = true; }
+      if (bigSplit) out.count("split_source_with_share_ge_2^31");
+    }
     ll maxd = 0;
     for (ll d : in.dems) maxd = std::max(maxd, d);
     if (feasible && m <= 5 && n <= 4 && maxd <= 4 && bruteBudget > 0) {
@@ -302,6 +311,7 @@ struct Runner {
           if (!ok) { out.fail(id, "toAssignment (set allocation): not an argmax", input + ";alloc=" + matStr(in.extraAlloc)); break; }
         }
         out.count("assign_on_set_allocation");
+        { bool big = false; for (auto &r2 : in.extraAlloc) for (ll v : r2) big = big || v >= (1LL << 31); if (big) out.count("assign_on_set_allocation_with_entry_ge_2^31"); }
       } catch (const std::runtime_error &) {
         out.impl << "throw:runtime_error\n";
       }
@@ -312,6 +322,7 @@ struct Runner {
     ll td = pb.totalDemand(), tc = pb.totalCapacity();
     out.count(td == tc ? "balanced" : "slack");
     out.count("tag_" + in.tag);
+    if (maxd >= 1000000) out.count("max_demand_ge_1e6");
     out.sample(input);
   }
 };
@@ -372,7 +383,7 @@ static float randFloatCost(vh::Rng &g, int mode) {
   }
 }
 
-static Inst randomInst(vh::Rng &g, bool tiny) {
+static Inst randomInst(vh::Rng &g, bool tiny, bool huge = false) {
   Inst in;
   int n, m;
   if (tiny) { n = g.range(1, 4); m = g.range(1, 5); in.tag = "tiny"; }
@@ -382,13 +393,19 @@ static Inst randomInst(vh::Rng &g, bool tiny) {
     m = sz < 3 ? g.range(1, 8) : (sz < 7 ? g.range(4, 40) : (sz < 9 ? g.range(20, 120) : g.range(100, 300)));
     in.tag = "random";
   }
-  // demands
-  int dmode = tiny ? 0 : g.range(0, 4);
-  ll dmax = dmode == 0 ? 4 : (dmode == 1 ? 1 : (dmode == 2 ? 20 : (dmode == 3 ? 1000 : 1000000000LL)));
+  // demands.  Large magnitudes are a small instance scaled by a common factor F: solve() is
+  // pseudo-polynomial (a round moves at most the smallest allocation on its chain, e.g. caps 3,2e9 / demand 1e8 /
+  // costs 0,1 takes 3.3e7 rounds), so unstructured huge demands would only measure that.
+  int dmode = tiny ? 0 : (huge ? 4 : g.range(0, 4));
+  ll dmax = dmode == 0 ? 4 : (dmode == 1 ? 1 : (dmode == 2 ? 20 : (dmode == 3 ? 200 : 20)));
+  ll F = 1;
+  if (huge) { F = (1LL << g.range(28, 36)) + g.range(0, 1000); }
+  else if (dmode == 4) { F = g.range(1, 6) == 1 ? g.range(2, 1000) : (1LL << g.range(10, 36)) + g.range(0, 1000); }
   ll td = 0;
   for (int j = 0; j < m; ++j) { ll d = g.range(1, dmax); in.dems.push_back(d); td += d; }
   // capacities: balanced / small slack / large slack / short (needs increaseCapacity) / very uneven
   int cmode = g.range(0, 5);
+  if (F > 1 && cmode == 3) cmode = 1;
   std::vector<ll> w(n);
   ll tw = 0;
   for (int i = 0; i < n; ++i) { w[i] = (cmode == 4) ? (g.chance(1, 3) ? 1 : g.range(1, 50)) : g.range(1, 5); tw += w[i]; }
@@ -400,9 +417,10 @@ static Inst randomInst(vh::Rng &g, bool tiny) {
   for (int i = 0; i < n; ++i) { ll c = std::max<ll>(1, target * w[i] / tw); in.caps.push_back(c); acc += c; }
   // fix up the total exactly for the balanced mode (and never fall short unless cmode==3)
   if (cmode != 3) {
-    while (acc < target) { in.caps[g.range(0, n - 1)] += 1; ++acc; if (target - acc > 64) { ll add = (target - acc) / n; for (auto &c : in.caps) c += add; acc += add * n; } }
-    if (cmode == 0) { int guard = 0; while (acc > target && guard++ < 10000) { int i = g.range(0, n - 1); if (in.caps[i] > 1) { --in.caps[i]; --acc; } } }
+    while (acc < target) { in.caps[g.range(0, n - 1)] += 1; ++acc; }
+    if (cmode == 0) { int guard = 0; while (acc > target && guard++ < 100000) { int i = g.range(0, n - 1); if (in.caps[i] > 1) { --in.caps[i]; --acc; } } }
   }
+  if (F > 1) { for (auto &d : in.dems) d *= F; for (auto &c : in.caps) c *= F; td *= F; acc *= F; in.tag += "_scaled"; }
   in.inc = (acc < td) || g.chance(1, 4);
   // costs
   in.isFloat = g.chance(2, 5);
@@ -432,10 +450,16 @@ static Inst randomInst(vh::Rng &g, bool tiny) {
     in.tag += "_i" + std::to_string(mode);
   }
   // an arbitrary allocation matrix for toAssignment (ties / zeros)
-  if (g.chance(1, 3)) {
+  if (huge || g.chance(1, 3)) {
     in.extraAlloc.assign(n, std::vector<ll>(m));
-    int amode = g.range(0, 2);
-    for (int i = 0; i < n; ++i) for (int j = 0; j < m; ++j) in.extraAlloc[i][j] = amode == 0 ? 0 : (amode == 1 ? g.range(0, 2) : g.range(0, 1000));
+    int amode = huge ? 4 : g.range(0, 4);
+    for (int i = 0; i < n; ++i)
+      for (int j = 0; j < m; ++j) {
+        ll v = amode == 0 ? 0 : (amode == 1 ? g.range(0, 2) : g.range(0, 1000));
+        // shares beyond 2^31 / 2^32 next to small ones (e.g. 3e9 in one sink, 1000 in another)
+        if (amode >= 3) { int k = g.range(0, 5); v = k == 0 ? 0 : (k == 1 ? g.range(1, 1000) : (k == 2 ? (1LL << 31) + g.range(-2, 2000000000LL) : (k == 3 ? (1LL << 32) + g.range(-2, 5) : g.range(1, 1LL << 40)))); }
+        in.extraAlloc[i][j] = v;
+      }
   }
   return in;
 }
@@ -514,8 +538,9 @@ int main(int argc, char **argv) {
   long long nr = a.thorough() ? 400000 : (a.search() ? 120000 : 24000);
   for (long long i = 0; i < nr; ++i) {
     vh::Rng g = vh::Rng::forCase(a.seed, i);
-    Inst in = (i % 97 == 96) ? invalidInst(g) : randomInst(g, i % 2 == 0);
-    r.run(std::string(i % 2 == 0 ? "t" : "r") + std::to_string(i), in);
+    bool huge = (i % 8 == 7);
+    Inst in = (i % 97 == 96) ? invalidInst(g) : randomInst(g, !huge && i % 2 == 0, huge);
+    r.run(std::string(huge ? "h" : (i % 2 == 0 ? "t" : "r")) + std::to_string(i), in);
   }
   out.finish();
   return 0;
